@@ -139,6 +139,7 @@ def run(rep: Report, tier: str) -> None:
 		r.note(f'triage entry matches no site any more: {k}')
 	rule_accessor(rep, idx)
 	rule_templates(rep)
+	rule_merge(rep, idx)
 	rep.extra_coverage['tainted_sites'] = len(tainted_sites)
 	rep.extra_coverage['tainted_by_kind'] = {k: sum(1 for s in tainted_sites if s.kind == k) for k in sorted({s.kind for s in tainted_sites})}
 
@@ -353,3 +354,51 @@ def rule_templates(rep: Report) -> None:
 	if not n_calls:
 		rs.skip('any_args-calls', (tm.relpath('class/class'), 1), 'no template calls any_args any more')
 	rep.extra_coverage['template_substitution_sites'] = sites
+
+
+def rule_merge(rep: Report, idx: SourceIndex) -> None:
+	"""VarsCollector._merged decides whether an assignment in a nested block declares a new variable: it does not when SOME already collected declaration of
+	the same name lives in an enclosing scope. The search must range over every collected declaration. Looking up one representative per name (a dict
+	keyed by the bare name, first / last wins) makes the answer depend on an unrelated binding that merely has the same spelling: renaming either
+	binding changes which statements are declarations."""
+	from vlib.match import inlined_bodies2, may_reach, nodes as nodes_
+	r = rep.rule('C08/declaration-merge-searches-all', 'in VarsCollector._merged the collected declaration whose scope is compared with the added variable ranges over all collected declarations (loop / comprehension over the collected mapping), never one representative selected by name', floor=1)
+	m = idx.mod('rogw/tranp/syntax/node/definition/statement_compound.py')
+	rep.consulted(m.relpath)
+	f = m.func('VarsCollector._merged')
+	if f is None:
+		r.skip('compared-declaration', (m.relpath, 1), 'VarsCollector._merged vanished')
+		return
+	collected = f.params()[1] if f.params()[0] in ('cls', 'self') else f.params()[0]
+	aliases = {collected} | {st.targets[0].id for st in f.node.body if isinstance(st, ast.Assign) and len(st.targets) == 1 and isinstance(st.targets[0], ast.Name) and isinstance(st.value, ast.Name) and st.value.id == collected}
+	bases: dict[str, ast.Name] = {}
+	for body, chain in inlined_bodies2(f, 2):
+		for c_ in nodes_(body, ast.Call):
+			if unparse(c_.func).endswith('ModuleDSN.expanded') and c_.args and isinstance(c_.args[0], ast.Attribute) and c_.args[0].attr == 'scope' and isinstance(c_.args[0].value, ast.Name):
+				bases.setdefault(c_.args[0].value.id, c_.args[0].value)
+	if len(bases) < 2:
+		r.skip('compared-declaration', f.where, f'_merged (and helpers) no longer compares ModuleDSN.expanded(<added>.scope) with ModuleDSN.expanded(<collected>.scope): {sorted(bases)}')
+		return
+	# locate each name's binding inside _merged itself
+	decided = False
+	for name in sorted(bases):
+		at = (bases[name].lineno, bases[name].col_offset)
+		uses = [n for n in ast.walk(f.node) if isinstance(n, ast.Name) and n.id == name and isinstance(n.ctx, ast.Load) and (n.lineno, n.col_offset) == at]
+		if not uses:
+			continue
+		binds = may_reach(f.node, uses[0]) or []
+		comp = [g for g in ast.walk(f.node) if isinstance(g, ast.comprehension) and any(isinstance(t, ast.Name) and t.id == name for t in ast.walk(g.target))]
+		its = [b.iter for b in binds if isinstance(b, (ast.For, ast.AsyncFor))] + [g.iter for g in comp]
+		if any(unparse(it).split('.')[0] not in aliases for it in its) and its:
+			continue  # the added side: iterates the other mapping
+		if its and all(unparse(it).split('.')[0] in aliases and unparse(it).endswith(('.values()', '.items()')) for it in its):
+			decided = True
+			r.ok('compared-declaration', f.where, message=f'`{name}` ranges over {sorted({unparse(it) for it in its})}')
+			continue
+		picks = [b for b in binds if isinstance(b, (ast.Assign, ast.AnnAssign)) and isinstance(b.value, (ast.Call, ast.Subscript))]
+		sel = [b for b in picks if (isinstance(b.value, ast.Call) and isinstance(b.value.func, ast.Attribute) and b.value.func.attr in ('get', 'pop', 'setdefault')) or isinstance(b.value, ast.Subscript) or (isinstance(b.value, ast.Call) and unparse(b.value.func) in ('next', 'min', 'max'))]
+		if sel:
+			decided = True
+			r.violate('compared-declaration', (m.relpath, sel[0].lineno), f'_merged compares the added variable with ONE collected declaration, `{unparse(sel[0])[:100]}`: when two unrelated bindings share a spelling (a loop-local `t`, then a function-level `t`), the representative is the wrong one, the nested assignment `t = 1` becomes a new declaration (`int t = 1;` shadows the outer variable); renaming either binding changes the output', unparse(sel[0])[:120])
+	if not decided:
+		r.skip('compared-declaration', f.where, f'binding of the compared declaration not recognised ({sorted(bases)})')
